@@ -85,7 +85,11 @@ theorem im_frame (t : Tree) : ∀ (x : Ctx) (s : ISt), Frame s (im t x s) := by
     | fault s1 => trivial
   | put k v => intro x s; simp only [im]; split <;> simp [Frame]
   | del k => intro x s; simp only [im]; split <;> simp [Frame]
-  | notify e => intro x s; simp only [im]; split <;> simp [Frame]
+  | notify e =>
+    intro x s; simp only [im]
+    split
+    · split <;> simp [Frame]
+    · trivial
   | ifp k body ih =>
     intro x s
     simp only [im]
@@ -175,6 +179,9 @@ theorem im_frame (t : Tree) : ∀ (x : Ctx) (s : ISt), Frame s (im t x s) := by
           | thrown s3 => trivial
           | fault s3 => trivial
         simp only [imPhase]
+        by_cases hlim : maxNotifications < (s0.ev ++ out.evs).length
+        · simp only [hlim, if_true]; trivial
+        simp only [hlim, if_false]
         cases out.cb with
         | none => simp only; exact tail _ rfl hp1
         | some to =>
